@@ -254,6 +254,55 @@ def shard_forms(m, items, inputs=()):
                 m.add('nontrivial')
 
 
+# Forms written as text (the IR has no left/right joins, rule chains or constants that fail), each with the grammar the
+# documentation says it stands for: [x] is (x | ()); c < b is c: >b ...; a constant that cannot be evaluated fails.
+TEXT_FORMS = [
+    ('optional-left-join', "start: ['b'<{'a'}+] 'b' $ ;", "start: ('b'<{'a'}+ | ()) 'b' $ ;", ['a', 'b', ' ']),
+    ('optional-right-join', "start: ['b'>{'a'}+] 'b' $ ;", "start: ('b'>{'a'}+ | ()) 'b' $ ;", ['a', 'b', ' ']),
+    ('optional-positive-join', "start: ['b'%{'a'}+] 'b' $ ;", "start: ('b'%{'a'}+ | ()) 'b' $ ;", ['a', 'b', ' ']),
+    ('optional-positive-gather', "start: ['b'.{'a'}+] 'b' $ ;", "start: ('b'.{'a'}+ | ()) 'b' $ ;", ['a', 'b', ' ']),
+    ('optional-positive-closure', "start: [{'a'}+] 'b' $ ;", "start: ({'a'}+ | ()) 'b' $ ;", ['a', 'b', ' ']),
+    ('based-chain', "a: 'a' ;\n\nb < a: 'b' ;\n\nc < b: 'a' ;\n\nstart: c $ ;", "start: 'a' 'b' 'a' $ ;", ['a', 'b', ' ']),
+    ('based-chain-named', "a: x:'a' ;\n\nb < a: y:['b'] ;\n\nc < b: z+:'a' ;\n\nstart: c $ ;",
+     "c: x:'a' y:['b'] z+:'a' ;\n\nstart: c $ ;", ['a', 'b', ' ']),
+    ('based-chain-of-four', "a: 'a' ;\n\nb < a: 'b' ;\n\nc < b: 'a' ;\n\nd < c: 'b' ;\n\nstart: d $ | c $ ;", "start: 'a' 'b' 'a' 'b' $ | 'a' 'b' 'a' $ ;", ['a', 'b', ' ']),
+    ('include-of-based', "a: x:'a' ;\n\nb < a: y:'b' ;\n\nstart: 'b' >b 'a' $ ;", "start: 'b' x:'a' y:'b' 'a' $ ;", ['a', 'b', ' ']),
+    ('include-of-include', "a: x:'a' ;\n\nb: >a y:'b' ;\n\nstart: 'b' >b 'a' $ ;", "start: 'b' x:'a' y:'b' 'a' $ ;", ['a', 'b', ' ']),
+    # a constant that cannot be evaluated makes its rule fail like a mismatch (written so that the rule fails as a whole
+    # whether or not its remaining alternatives are tried after the constant: both readings give the same result)
+    ('failing-constant-in-nested-choice', "start: '+' ('-' r '+' | '-' '+' '-' '-') $ ;\n\nr: '+' ('-' `1/0` | '+') ;",
+     "start: '+' ('-' r '+' | '-' '+' '-' '-') $ ;\n\nr: '+' ('-' !() | '+') ;", ['+', '-']),
+    ('failing-constant-in-optional', "start: r '-' $ | '+' '-' '-' $ ;\n\nr: '+' ['-' `{}+1` '+'] '+' ;",
+     "start: r '-' $ | '+' '-' '-' $ ;\n\nr: '+' ['-' !() '+'] '+' ;", ['+', '-']),
+    ('failing-constant-after-cut', "start: r | '+' '-' ;\n\nr: '+' ~ ['-' `{}+1`] '+' ;",
+     "start: r | '+' '-' ;\n\nr: '+' ~ ['-' !()] '+' ;", ['+', '-']),
+]
+
+
+def shard_text_forms(m, items, maxlen=5):
+    for label, form, expanded, alpha in items:
+        try:
+            mf = impl.compile_text(form)
+            me = impl.compile_text(expanded)
+        except Exception as ex:  # noqa
+            m.violation(f'rule-form/compile-failed/{label}/{type(ex).__name__}', grammar=form, error=str(ex)[:200])
+            continue
+        m.add('programs', 2)
+        hit = False
+        for t in gs.inputs(alpha, maxlen):
+            a = impl.parse(mf, t, start='start')
+            b = impl.parse(me, t, start='start')
+            m.add('evaluations', 2)
+            m.add('transitions', 2)
+            m.add('states')
+            if a[0] != b[0] or (a[0] == 'ok' and a[1] != b[1]):
+                m.violation(f'rule-form/differs-from-documented-expansion/{label}', grammar=form, expansion=expanded, input=t, form=a, expanded=b)
+            if b[0] == 'ok':
+                m.add('nontrivial')
+                hit = True
+        m.reach('text-forms', label, hit)
+
+
 def named_composites(prof):
     """Names and overrides applied to composite value expressions: every pair (and the triples with a
     middle token) of value-bearing atoms, including atoms whose value is falsy ([] '' None)."""
@@ -345,6 +394,7 @@ def run(rc):
     rc.pmap(shard, exps, inputs=inputs, prof=prof)
     rc.pmap(shard, named_composites(prof), inputs=inputs, prof=prof)
     rc.pmap(shard_forms, rule_forms(), chunk=1, inputs=list(gs.inputs(['a', 'b', ' '], maxlen + 1)))
+    rc.pmap(shard_text_forms, TEXT_FORMS, chunk=1, maxlen=maxlen + 1)
     rc.pmap(shard_helper_starts, ['r', 'R', 's', 'REST'], chunk=1, inputs=inputs, prof=prof)
     c = rc.total.counts
     rc.coverage.update({
